@@ -14,6 +14,7 @@ import (
 	"fmt"
 	"strconv"
 	"sync"
+	"sync/atomic"
 	"time"
 
 	"github.com/centrifugal/centrifuge"
@@ -683,4 +684,205 @@ func replay(in json.RawMessage, res *vh.Result) error {
 	return nil
 }
 
-func main() { vh.Main(map[string]vh.Mode{"replay": replay}) }
+// ---------------------------------------------------------------- probes of the spec's blocking assumptions
+//
+// SubStream.tla (and SubLifecycle.tla) take some code sections as atomic because a lock makes a concurrent
+// delivery or unsubscribe WAIT there. A probe parks the real goroutine inside such a section, starts the
+// operation that must wait, and judges the frames the connection received with the C10 monitor:
+//   ssub-positioned : server-side positioned Client.Subscribe parked between commit and subscribe push (hook
+//                     ssub:committed); a publication delivered now must not be pushed before the subscribe push
+//                     (the recovery buffer stays locked until the deferred StopBuffering)
+//   ssub-plain      : the same for a non-positioned server-side subscription (nothing holds publications back)
+//   unsub-broadcast : a broadcast parked inside the hub (Transport.Unidirectional is called while the shard lock is
+//                     held); the client unsubscribes; the publication must not follow the unsubscribe reply
+type probeGate struct {
+	mu    sync.Mutex
+	gates map[string]*cl.Gate // client id + ":" + point
+}
+
+func (p *probeGate) arm(key string) *cl.Gate {
+	p.mu.Lock()
+	defer p.mu.Unlock()
+	g := cl.NewGate()
+	p.gates[key] = g
+	return g
+}
+
+func (p *probeGate) hook(point, clientID, _ string) {
+	p.mu.Lock()
+	g := p.gates[clientID+":"+point]
+	delete(p.gates, clientID+":"+point)
+	p.mu.Unlock()
+	if g != nil {
+		g.Arrive(5 * time.Second)
+	}
+}
+
+func kinds(rs []*protocol.Reply, ch string) []string {
+	var out []string
+	for _, r := range rs {
+		switch {
+		case r.Push != nil && r.Push.Channel == ch && r.Push.Pub != nil:
+			out = append(out, "pub")
+		case r.Push != nil && r.Push.Channel == ch && r.Push.Subscribe != nil:
+			out = append(out, "subpush")
+		case r.Push != nil && r.Push.Channel == ch && r.Push.Unsubscribe != nil:
+			out = append(out, "unsubpush")
+		case r.Subscribe != nil:
+			out = append(out, "subreply")
+		case r.Unsubscribe != nil:
+			out = append(out, "unsubreply")
+		}
+	}
+	return out
+}
+
+func probes(in json.RawMessage, res *vh.Result) error {
+	var cfg struct {
+		N int `json:"n"`
+	}
+	_ = json.Unmarshal(in, &cfg)
+	if cfg.N == 0 {
+		cfg.N = 3
+	}
+	pg := &probeGate{gates: map[string]*cl.Gate{}}
+	centrifuge.VerifSetGate(pg.hook)
+	defer centrifuge.VerifSetGate(nil)
+	env, err := cl.NewEnv(centrifuge.Config{LogLevel: centrifuge.LogLevelNone})
+	if err != nil {
+		return err
+	}
+	if err := env.Run(); err != nil {
+		return err
+	}
+	defer env.Close()
+	for i := 0; i < cfg.N; i++ {
+		for _, positioned := range []bool{true, false} {
+			name := "ssub-plain"
+			if positioned {
+				name = "ssub-positioned"
+			}
+			ch := fmt.Sprintf("pr%d_%d_%v", vh.Seed(), i, positioned)
+			conn, _ := env.NewConn("u", centrifuge.ProtocolTypeJSON)
+			conn.Connect()
+			g := pg.arm(conn.Client.ID() + ":ssub:committed")
+			done := make(chan error, 1)
+			go func() {
+				if positioned {
+					done <- conn.Client.Subscribe(ch, centrifuge.WithPositioning(true))
+				} else {
+					done <- conn.Client.Subscribe(ch)
+				}
+			}()
+			if !g.WaitArrived(3 * time.Second) {
+				res.Drift("C10", name+": subscribe did not reach the commit", nil)
+				res.Done(1, 0)
+				continue
+			}
+			pubDone := make(chan struct{})
+			go func() {
+				_, _ = env.Node.Publish(ch, []byte(`{"p":1}`), centrifuge.WithHistory(10, time.Minute))
+				close(pubDone)
+			}()
+			blocked := true
+			select {
+			case <-pubDone:
+				blocked = false
+			case <-time.After(120 * time.Millisecond):
+			}
+			g.Release()
+			<-done
+			<-pubDone
+			conn.Barrier(2 * time.Second)
+			ks := kinds(conn.Frames(), ch)
+			replay := map[string]any{"probe": name, "frames": ks, "delivery_blocked_until_push": blocked}
+			bad := false
+			seenPush := false
+			for _, k := range ks {
+				if k == "subpush" {
+					seenPush = true
+				}
+				if k == "pub" && !seenPush {
+					bad = true
+				}
+			}
+			if bad {
+				res.Violate("C10", "pub-before-subscribe-push:"+name, fmt.Sprintf("a publication was pushed before the subscribe push of a server-side subscription (%s): frames %v", name, ks), replay)
+			}
+			res.Distinct(name)
+			res.Sample(replay)
+			res.Done(1, 1)
+			conn.Client.Disconnect()
+		}
+		// unsubscribe racing an in-flight broadcast
+		{
+			name := "unsub-broadcast"
+			ch := fmt.Sprintf("pu%d_%d", vh.Seed(), i)
+			t := cl.NewTransport(centrifuge.ProtocolTypeJSON)
+			var armed atomic.Bool
+			g := cl.NewGate()
+			t.OnUnidirectional = func() {
+				if armed.CompareAndSwap(true, false) {
+					g.Arrive(5 * time.Second)
+				}
+			}
+			conn, _ := env.NewConnT("u", t)
+			conn.Connect()
+			sid := conn.NextID()
+			conn.Do(&protocol.Command{Id: sid, Subscribe: &protocol.SubscribeRequest{Channel: ch}})
+			conn.WaitReply(sid, 2*time.Second)
+			armed.Store(true)
+			pubDone := make(chan struct{})
+			go func() {
+				_, _ = env.Node.Publish(ch, []byte(`{"p":1}`))
+				close(pubDone)
+			}()
+			if !g.WaitArrived(2 * time.Second) {
+				// the hub does not call Unidirectional() inside this broadcast: the probe does not apply to this tree
+				armed.Store(false)
+				<-pubDone
+				res.Count("unsub-broadcast-not-applicable", 1)
+				conn.Client.Disconnect()
+				continue
+			}
+			uid := conn.NextID()
+			unsubDone := make(chan struct{})
+			go func() {
+				conn.Do(&protocol.Command{Id: uid, Unsubscribe: &protocol.UnsubscribeRequest{Channel: ch}})
+				close(unsubDone)
+			}()
+			blocked := true
+			select {
+			case <-unsubDone:
+				blocked = false
+			case <-time.After(120 * time.Millisecond):
+			}
+			g.Release()
+			<-pubDone
+			<-unsubDone
+			conn.Barrier(2 * time.Second)
+			ks := kinds(conn.Frames(), ch)
+			replay := map[string]any{"probe": name, "frames": ks, "unsubscribe_waited_for_broadcast": blocked}
+			ended := false
+			bad := false
+			for _, k := range ks {
+				if k == "unsubreply" {
+					ended = true
+				}
+				if k == "pub" && ended {
+					bad = true
+				}
+			}
+			if bad {
+				res.Violate("C10", "pub-after-unsubscribe-reply:"+name, fmt.Sprintf("a publication was pushed after the unsubscribe reply: frames %v", ks), replay)
+			}
+			res.Distinct(name)
+			res.Sample(replay)
+			res.Done(1, 1)
+			conn.Client.Disconnect()
+		}
+	}
+	return nil
+}
+
+func main() { vh.Main(map[string]vh.Mode{"replay": replay, "probes": probes}) }
